@@ -75,8 +75,8 @@ Proof. exact two_flip_instance. Qed.
 
 (** a concrete run in which an object is retired while a reader is inside and disposed after the reader left *)
 Example C04_gpi_dispose_nonvacuous :
-  let r := RcuGp.run_case [2; 3000] [[[1]; [3]; [9]; [9]]; [[1]; [7; 5]; [8]; [6; 5]]]
-             [0;0;0;0;0;0;0;0;1;1;1;1;1;1;1;1;1;1;1;1;1;1;1;1;1;1;1;1;1;1;1;1;1;1;1;0]%nat 3000 in
+  let r := RcuGp.run_case [2; 3000]%Z [[[1]; [3]; [9]; [9]]; [[1]; [7; 5]; [8]; [6; 5]]]%Z
+             [1;1;1;1;1;1;0;0;0;0;0;0;0;0;0;0;1;1;1;1;1;1;1;1;1;1;1;1;1;1;1;1;1;1;1;1;1;1;1;1;0]%nat 3000 in
   snd r = true /\ List.length (filter (is_cli "dispose") (map snd (fst r))) = 1%nat /\
   List.length (filter (is_cli "touch") (map snd (fst r))) = 1%nat.
-Proof. Time vm_compute. repeat split; reflexivity. Qed.
+Proof. vm_compute. repeat split; reflexivity. Qed.
